@@ -405,6 +405,41 @@ def _(c):
     c.no_raise()
 
 
+# a sourced DIP file is a text of its own: its case blocks are judged by its own conditions, wherever the $source line stands in the parent
+_FIX = os.path.join(os.path.dirname(os.path.abspath(__file__)), "fixtures")
+SRC_TEXTS = [
+    ("source-declared-inside-a-clause", '@case ("{?c0}")\n  $source inc = ' + os.path.join(_FIX, "remote_blocks.dip") + '\n  got {inc?*}\n@else\n  k int = 9\n@end\nz int = 3'),
+    ("source-declared-inside-a-nested-else", '@case ("{?c0}")\n  k int = 9\n@else\n  @case ("{?c1}")\n    m int = 1\n  @else\n    $source inc = ' + os.path.join(_FIX, "remote_blocks.dip") + '\n    got {inc?*}\n  @end\n@end\nz int = 3'),
+]
+
+
+@contract(DIPC + ".parse", ["C15"], name="DIP.parse[source-declared-inside-a-clause]")
+def _(c):
+    c.bound = "two texts declaring a DIP file (which begins with a case block of its own) as a source inside a clause; truth values of the parent's conditions symbolic"
+    c.chunk = 1
+    for name, text in SRC_TEXTS:
+        def pre(b, text=text, name=name):
+            d, env, cs, vs = prestate(b, text)
+            return dict(args=[d], env=dict(cs=cs, sel=(name == "source-declared-inside-a-clause")))
+        c.scenario(name, pre)
+    c.ensures("(lambda on: (val_of(result, 'got.a') == 1 and val_of(result, 'got.b') == 4 and val_of(result, 'got.c') == 6) if on else (node_of(result, 'got.a') is None and node_of(result, 'got.b') is None))"
+              "(cs[0] if sel else ((not cs[0]) and (not cs[1])))", "blocks-of-the-sourced-file-judged-by-its-own-conditions")
+    c.ensures("val_of(result, 'z') == 3", "lines-after-the-block-unaffected")
+    c.no_raise()
+
+
+@contract(DIPC + ".parse", ["C15"], name="DIP.parse[sourced-file-with-a-misplaced-else]")
+def _(c):
+    c.bound = "a DIP file beginning with a misplaced @else, declared as a source at top level and inside a selected clause"
+    for name, text in [("at-top-level", '$source inc = ' + os.path.join(_FIX, "remote_misplaced_else.dip") + '\nz int = 3'),
+                       ("inside-a-selected-clause", '@case true\n  $source inc = ' + os.path.join(_FIX, "remote_misplaced_else.dip") + '\n@end\nz int = 3')]:
+        def pre(b, text=text):
+            d, env, cs, vs = prestate(b, text)
+            return dict(args=[d])
+        c.scenario(name, pre)
+    c.raises("True", label="misplaced-else-is-an-error")
+
+
 # =====================================================================================================================
 # General form: a prelude (parsed first; the values of some of its nodes are then replaced by symbols), a text parsed
 # on top of that environment, and what the property says about the outcome, written as small expression trees over the
